@@ -422,6 +422,10 @@ class Pred:
     def all(self, *a, **k):
         return self
 
+    def astype(self, *a, **k):
+        # the 0/1 indicator of the comparison (an opaque number)
+        return Sym('indicator', self)
+
     def __or__(self, o):
         return Pred.disj([self, o])
 
